@@ -33,6 +33,8 @@ Deviations == { "StaleProbeReinserts",  \* a probe of a replaced target object r
                 "WaitAfterClose",       \* a caller registers as waiter after Close
                 "TimeoutLeaks",         \* timeout leaves the waiter in the table
                 "DetectNoWake",         \* detector tick does not wake waiters
+                "DetectWakeNeedsProbe", \* the detector tick checks the waiters only on passes that started a probe (all targets alive: a
+                                        \* caller parked during a Fallback pause is not released when the pause ends)
                 "RebuildOnlyOnChange",  \* check rebuilds the live list only when the probed target's alive flag changed (a target a failed
                                         \* call already marked dead then stays in the list)
                 "CtxMarksDead",         \* a context that ended is reported to the target like a failed dial
@@ -105,7 +107,7 @@ Woken(ws) == [k \in Callers |-> IF k \in ws THEN "woken" ELSE cst[k]]
 Detect(dNoWake) ==      \* (a pass already under way when Close is called still completes)
     /\ dflip' = ~dflip
     /\ probes' = probes \cup {<<a, gen>> : a \in {x \in targets : ~talive[x]}}
-    /\ IF fallback = 0 /\ list # <<>> /\ ~dNoWake
+    /\ IF fallback = 0 /\ list # <<>> /\ ~dNoWake /\ ~("DetectWakeNeedsProbe" \in Dev /\ {x \in targets : ~talive[x]} = {})
          THEN /\ cst' = Woken(waiters) /\ waiters' = {}
          ELSE UNCHANGED <<cst, waiters>>
     /\ UNCHANGED <<targets, gen, talive, lat, list, lastSet, pos, probeDue, croute, cerr, cvia, closed, fallback, health, director,
